@@ -17,7 +17,7 @@ EXPLANATION = (
 ASSUMPTIONS = ["pika::memory::intrusive_ptr copy/move/assign only affect the token reference count (intrusive_ptr_add_ref/release)",
                "std::atomic operations are the only accesses to state_"]
 THOROUGH_CONFIGS = [["-UNDEBUG", "-DPIKA_DEBUG"]]
-FLOORS = {"C14.R11": 3, "C14.R10": 5, "C14.R9": 12, "C14.R1": 6, "C14.R2": 6, "C14.R3": 5, "C14.R4": 8, "C14.R5": 6, "C14.R6": 4, "C14.R7": 8, "C14.R8": 3}
+FLOORS = {"C14.R12": 2, "C14.R11": 3, "C14.R10": 5, "C14.R9": 12, "C14.R1": 6, "C14.R2": 6, "C14.R3": 5, "C14.R4": 8, "C14.R5": 6, "C14.R6": 4, "C14.R7": 8, "C14.R8": 3}
 
 SS = "pika::detail::stop_state"
 TRY_GUARDS = ("pika::detail::scoped_lock_if_not_stopped", "pika::detail::scoped_lock_and_request_stop")
@@ -57,6 +57,10 @@ def run(rep, tier):
     rep.rule("C14.R2", "K4: every CAS on state_ in lock_and_request_stop/lock_if_not_stopped sees !stop_requested(word) established since the word's last (re)load; flags ORed as required; true only after CAS success")
     rep.rule("C14.R3", "K1: callbacks_ accessed and list helpers called only with the stop_state lock held")
     rep.rule("C14.R4", "K2/K6: callbacks run unlocked after being unlinked; finished flag published with release; execute() only from the three known sites; remove_callback waits unless on the signalling thread")
+    rep.rule("C14.R12", "K6 (who is 'this thread'): remove_callback skips waiting for a running callback only when it runs on the thread that is executing the callbacks (a callback "
+             "deregistering itself). Threads that are not pika threads all have the same - invalid - pika thread id, so a test on the pika id alone takes any two plain OS "
+             "threads for the same thread: the destructor on OS thread U returns while the callback is still running on OS thread T (and writes through T's is_removed_ "
+             "pointer). The test therefore also compares an OS-level identity (std::this_thread::get_id()) that request_stop recorded")
     rep.rule("C14.R5", "K8: stop_source special members keep the source count balanced")
     rep.rule("C14.R6", "K9: stop_callback is pinned; state word lock-free")
     rep.rule("C14.R7", "K5 (who-may-write, whole library): the packed word stop_state::state_ (token count | stop bit | source count | lock bit) is modified only by atomic read-modify-write operations outside the constructor; the lock bit is released with >= release")
@@ -384,6 +388,25 @@ def run(rep, tier):
                 rep.ok("C14.R4", rc, "a callback that was still linked is simply unlinked (no wait)")
             else:
                 rep.bad("C14.R4", rc, loc_of(ev), "unlink-then-wait", "after unlinking a not-yet-run callback the destructor must return at once")
+
+    # ---- R12: the signalling-thread test tells plain OS threads apart
+    from engine.kinds import expand_locals as _xl12
+    tests12 = [(blk, T(_xl12(rc, blk.cond))) for blk in rc.blocks.values() if blk.cond is not None and "signalling_thread_" in T(_xl12(rc, blk.cond))]
+    if not tests12:
+        raise AnalysisBroken("remove_callback: the test of signalling_thread_ was not found")
+    os_id = lambda f_: [e for _, _, e in f_.all_events() if e.get("k") == "call" and callee_of(e) in ("std::this_thread::get_id", "pthread_self")]
+    if os_id(rc) and any("get_id()" in txt or "pthread_self()" in txt for _, txt in tests12):
+        rep.ok("C14.R12", rc, "remove_callback compares an OS-level thread identity as well as the pika thread id")
+    else:
+        rep.bad("C14.R12", rc, loc_of(tests12[0][0].events[-1]) if tests12[0][0].events else rc.loc, "os-threads-indistinguishable", "remove_callback decides 'the callback runs on this thread' by "
+                "'%s' alone: get_self_id() is the invalid id on every thread that is not a pika thread, so for two plain OS threads the test is true - ~stop_callback returns while the "
+                "callback is still executing on the other thread (and sets *is_removed_ in that thread's frame)" % tests12[0][1][:100])
+    rq12 = get(SS + "::request_stop")
+    if os_id(rq12) and any((e.get("k") == "write" and "get_id()" in T(e.get("rhs"))) or (e.get("k") == "call" and e.get("op") == "=" and "get_id()" in T(e) and P(e.get("recv") or {}).startswith("this->"))
+                           for _, _, e in rq12.all_events()):
+        rep.ok("C14.R12", rq12, "request_stop records the OS thread it runs the callbacks on")
+    else:
+        rep.bad("C14.R12", rq12, rq12.loc, "os-thread-not-recorded", "request_stop does not record the OS thread that executes the callbacks")
 
     # ---- R9: loops poll fresh words, results agree with what was done
     r9_rules(rep, F, get)
